@@ -1150,14 +1150,23 @@ def r_field_vocab(ctx, repo):
     insts = _assigned_from(r.node, lambda d: _self_call('make_python_instance')(d))
     if not insts:
         raise AnalysisError('construct_python_object_apply: the instance (result of make_python_instance) was not found')
-    lists = {nm for nm, k in field_of.items() if k == 'listitems'}
-    dicts = {nm for nm, k in field_of.items() if k == 'dictitems'}
+    def mentions_field(e, key):
+        """the expression reads the field `key` of the constructed mapping (directly or through the local that received it)"""
+        for x in ast.walk(e):
+            if isinstance(x, ast.Name) and field_of.get(x.id) == key:
+                return True
+            if isinstance(x, ast.Call) and isinstance(x.func, ast.Attribute) and x.func.attr in ('get', 'pop') \
+                    and isinstance(x.func.value, ast.Name) and x.func.value.id in fields and x.args and A.const_str(x.args[0]) == key:
+                return True
+            if isinstance(x, ast.Subscript) and isinstance(x.value, ast.Name) and x.value.id in fields and A.const_str(x.slice) == key:
+                return True
+        return False
     ext = [c for c in A.func_calls(r.node) if isinstance(c.func, ast.Attribute) and c.func.attr == 'extend'
            and isinstance(c.func.value, ast.Name) and c.func.value.id in insts and len(c.args) == 1
-           and isinstance(c.args[0], ast.Name) and c.args[0].id in lists]
+           and mentions_field(c.args[0], 'listitems')]
     setitem = [n for n in walk_function(r.node) if isinstance(n, ast.Assign) and isinstance(n.targets[0], ast.Subscript)
                and isinstance(n.targets[0].value, ast.Name) and n.targets[0].value.id in insts
-               and any(isinstance(x, ast.Name) and x.id in dicts for p in _enclosing_loops(n, r.node) for x in ast.walk(p.iter))]
+               and any(mentions_field(p.iter, 'dictitems') for p in _enclosing_loops(n, r.node))]
     other = [c for c in A.func_calls(r.node) if isinstance(c.func, ast.Attribute) and isinstance(c.func.value, ast.Name)
              and c.func.value.id in insts and c.func.attr not in ('extend',)]
     if ext and setitem and not other:
